@@ -154,7 +154,7 @@ fn c11_partition(n: usize, p: &Part, rep: &mut Report) -> Vec<String> {
                     msgs.push(format!("{}: pick({}) = {} is outside {:?}", how, k, pk, (l, h)));
                 }
             }
-            let rr: Vec<(u32, u32)> = cp.ranges().map(|r| (r.pick(), r.pick() + (r.size() - 1))).collect();
+            let rr: Vec<(u32, u32)> = cp.ranges().map(crate::regex::bounds_of).collect();
             if rr != ivs {
                 msgs.push(format!("{}: ranges() yields {:?}", how, rr));
             }
